@@ -782,13 +782,15 @@ class PolytopeCheck(Check):
                     log.add(f"poly{i}", "nodes", [N, op["projection"]], digest_any(part))
                 elif op["op"] == "too_many":
                     n = EXPECTED_COUNT[kind](levels[i])
+                    # asking for more nodes than exist is a call the statement says nothing about: it is only made to
+                    # see that it does not disturb the object (the invariants are checked again afterwards)
                     try:
-                        with lib_call(what + f" get_nodes(N={n + op['extra']})", allowed=(ValueError,)):
+                        with quiet():
                             poly.get_nodes(N=n + op["extra"])
-                        raise Violation("too-many-accepted", f"{what}: get_nodes(N={n + op['extra']}) with {n} nodes "
-                                                             f"did not raise ValueError")
-                    except ValueError:
-                        pass
+                        probes["oversized_request_accepted"] = probes.get("oversized_request_accepted", 0) + 1
+                    except Exception:  # noqa: BLE001
+                        probes["oversized_request_rejected"] = probes.get("oversized_request_rejected", 0) + 1
+                    self._check_instance(kind, poly, levels[i], logs[i], what + " after an oversized request")
                     log.add(f"poly{i}", "too_many", op["extra"])
                 elif op["op"] == "half":
                     nodes, proj = self._check_instance(kind, poly, levels[i], logs[i], what)
